@@ -688,6 +688,25 @@ class Engine:
             return T('call', fn, tuple(args), ())
         return T('apply', f, tuple(args))
 
+    def lv_defs(self, lv):
+        """terms of every whole definition (initial and in-loop) of a loop-carried variable atom, plus its events"""
+        body = self.facts.by_key.get(lv[1])
+        if body is None:
+            return []
+        ix = self.bx(body)
+        out = []
+        for (dbb, didx, kind, node) in ix.whole_defs(lv[2]):
+            if kind == 'call':
+                out.append(self._call(body, dbb, node, 1))
+            else:
+                out.append(self.rvalue(body, dbb, didx, node['rv'], 1))
+        for e in ix.events_on(('L', lv[2])):
+            out.append(self.event_term(body, e, 1))
+        site = lv[4]
+        if site:
+            out = [self.subst(t, {}, site) for t in out]
+        return out
+
     def subst_term(self, t, old, new):
         """replace every occurrence of sub-term `old` in t by `new`"""
         memo = {old.id: new}
